@@ -7,6 +7,47 @@ mod helpers;
 #[path = "/repo/strum_macros/src/macros/mod.rs"]
 mod macros;
 
+
+/// A REFERENCE for identifiers outside the Coq model's domain (non-ASCII identifiers: the model is stated over ASCII bytes).
+/// It is written against heck 0.5.0 directly from the documentation of `serialize_all` and shares no code with strum_macros:
+/// a Rust-vs-Rust differential, labelled as such in the evidence.
+mod reference {
+    use heck::{ToKebabCase, ToLowerCamelCase, ToShoutySnakeCase, ToSnakeCase, ToTitleCase, ToTrainCase, ToUpperCamelCase};
+    pub fn convert(style: Option<&str>, ident: &str) -> Option<String> {
+        let style = match style { None => return Some(ident.to_string()), Some(s) => s };
+        Some(match style {
+            "PascalCase" | "camel_case" => ident.to_upper_camel_case(),
+            "kebab-case" | "kebab_case" => ident.to_kebab_case(),
+            "mixed_case" => ident.to_lower_camel_case(),
+            "SCREAMING_SNAKE_CASE" | "shouty_snake_case" | "shouty_snek_case" => ident.to_shouty_snake_case(),
+            "snake_case" | "snek_case" => ident.to_snake_case(),
+            "title_case" => ident.to_title_case(),
+            "UPPERCASE" => ident.to_uppercase(),
+            "lowercase" => ident.to_lowercase(),
+            "SCREAMING-KEBAB-CASE" => ident.to_kebab_case().to_uppercase(),
+            "Train-Case" => ident.to_train_case(),
+            // camelCase: PascalCase with its first CHARACTER lower-cased (by the Unicode mapping, whatever its width)
+            "camelCase" => {
+                let p = ident.to_upper_camel_case();
+                let mut cs = p.chars();
+                match cs.next() { None => String::new(), Some(c) => c.to_lowercase().chain(cs).collect() }
+            }
+            _ => return None,
+        })
+    }
+    /// snake_case, and additionally every run of ASCII digits that follows a non-digit starts a new word
+    pub fn snakify(ident: &str) -> String {
+        let mut out = String::new();
+        let mut prev: Option<char> = None;
+        for c in ident.to_snake_case().chars() {
+            if c.is_ascii_digit() { if let Some(p) = prev { if !p.is_ascii_digit() { out.push('_'); } } }
+            out.push(c);
+            prev = Some(c);
+        }
+        out
+    }
+}
+
 use helpers::case_style::{CaseStyle, CaseStyleHelpers};
 use std::collections::BTreeSet;
 use std::str::FromStr;
@@ -549,6 +590,22 @@ fn main() {
                 let id = unhex(parts[3]);
                 match std::panic::catch_unwind(|| { let ident = syn::Ident::new(&id, proc_macro2::Span::call_site()); ident.convert_case(style) }) {
                     Ok(s) => hex(&s), Err(_) => "panic".to_string() }
+            }
+            "caseu" => {
+                // caseu <n> <style hex | -> <ident hex>: the real convert_case next to the reference, for identifiers outside the model's domain
+                let stname = if parts[2] == "-" { None } else { Some(unhex(parts[2])) };
+                let id = unhex(parts[3]);
+                let real = match std::panic::catch_unwind(|| {
+                    let style = stname.as_ref().map(|s| CaseStyle::from_str(s).expect("known style"));
+                    let ident = if let Some(r) = id.strip_prefix("r#") { syn::Ident::new_raw(r, proc_macro2::Span::call_site()) } else { syn::Ident::new(&id, proc_macro2::Span::call_site()) };
+                    ident.convert_case(style) }) { Ok(s) => hex(&s), Err(_) => "panic".to_string() };
+                let want = reference::convert(stname.as_deref(), id.strip_prefix("r#").unwrap_or(&id)).map(|s| hex(&s)).unwrap_or("unknown-style".to_string());
+                format!("real={}|ref={}", real, want)
+            }
+            "snakifyu" => {
+                let id = unhex(parts[2]);
+                let real = match std::panic::catch_unwind(|| helpers::snakify(&id)) { Ok(s) => hex(&s), Err(_) => "panic".to_string() };
+                format!("real={}|ref={}", real, hex(&reference::snakify(&id)))
             }
             "style" => match CaseStyle::from_str(&unhex(parts[2])) { Ok(s) => format!("{:?}", s), Err(_) => "unknown".to_string() },
             "snakify" => hex(&helpers::snakify(&unhex(parts[2]))),
